@@ -131,7 +131,7 @@ def cmd_run(args):
     if agg['harness']:
         for h in agg['harness'][:5]:
             print('HARNESS-ERROR: %s' % h)
-        return 2
+        return 1 if new else 2
     if agg['runs'] == 0:
         print('HARNESS-ERROR: no runs executed')
         return 2
